@@ -239,6 +239,21 @@ C09_AnchorTrusted ==
             /\ b.sigs \subseteq Members(h, b.rr)
             /\ Cardinality(b.sigs) > TrustCount(Cardinality(Members(h, b.rr)))
 
-Idle(n) == ~Busy(nodes[n]) /\ nodes[n].h.undet = << >>
+Idle(n) == ~Busy(nodes[n])
+
+\* C06 at design level: under fair scheduling of the live nodes' own steps a
+\* node whose work is bounded returns to idle, and every submitted transaction
+\* is committed by every live node.  (Only meaningful in configurations whose
+\* MaxEvents leaves room for the rounds the submitted transactions need.)
+FairSpec ==
+    /\ Spec
+    /\ \A n \in Nodes \ Silent : WF_vars(Monologue(n))
+    /\ \A x, y \in Nodes \ Silent : \A lim \in Limits : WF_vars(Send(x, y, lim))
+    /\ SF_vars(\E m \in msgs : Deliver(m))
+
+C06_EventuallyIdle == \A n \in Nodes \ Silent : <>[]Idle(n)
+C06_AllCommitted ==
+    \A t \in 1..MaxTx : <>[](t \in DOMAIN submitted =>
+                              \A n \in Nodes \ Silent : \E i \in 1..Len(Out(n)) : SeqContains(Out(n)[i].txs, t))
 
 =============================================================================
